@@ -196,6 +196,9 @@ def ref_http(exc_type_info, attrs):
 
 
 SQL_RE = re.compile(r"[0-9A-Z]{5}")
+# a candidate set off by white space, brackets or punctuation (nobody could read it differently)
+PYODBC_TOKEN_RE = re.compile(r"(?<=\[)[0-9A-Z]{5}(?=\])")
+SQL_TOKEN_RE = re.compile(r"(?:^|(?<=[\s\[\(:]))[0-9A-Z]{5}(?=$|[\s\]\):,.])")
 
 
 def sql_map(code):
@@ -226,10 +229,19 @@ def ref_sql(exc_type_info, attrs, pyodbc):
     if s is not None and _truthy(s):
         return set(ALL)  # non-string SQLSTATE values: unspecified, any class, but no exception
     found = set()
+    clear = set()
     for a in (args if isinstance(args, tuple) else ()):
         if isinstance(a, str):
             for m in SQL_RE.findall(a):
                 found.add(sql_map(m))
+            # pyodbc messages carry the code in brackets ("[40001] [Microsoft]..."): only that
+            # shape is unambiguous for pyodbc_classifier
+            for m in (PYODBC_TOKEN_RE if pyodbc else SQL_TOKEN_RE).findall(a):
+                clear.add(sql_map(m))
+    if clear and "UNKNOWN" not in clear:
+        # every clearly delimited candidate is a documented code: whichever is taken, the answer
+        # is the documented class of one of them ("none" is no longer a reading)
+        return clear | extra
     if found:
         # which token of which argument is taken is not documented: any of them, or none
         return found | extra | ({"UNKNOWN"} if pyodbc else ref_default(exc_type_info, attrs, False))
@@ -260,6 +272,9 @@ def make_types():
                  "ReadTimeout", "connectionLost", "AuthTimeout", "forbidConnection", "Authority",
                  "Timeou", "Xx"):
         add(type(name, (Exception,), {}))
+    # exception objects that derive from BaseException only (signal-like application types)
+    add(type("BaseSignal", (BaseException,), {}))
+    add(type("AuthBaseFailure", (BaseException,), {}))
     # the *type name* carries no keyword; the module path / enclosing class does
     for mod, qual in (("acme.connection_pool", "Oddball"), ("acme.auth.transport", "Oddball"),
                       ("plain", "AuthClient.Oddball"), ("acme.permission", "Forbidder.Xx")):
@@ -305,7 +320,10 @@ _RING.append((_RING,))            # tuple / list cycle
 _DEEP = "leaf"
 for _ in range(6000):             # nesting deeper than the recursion limit
     _DEEP = [_DEEP]
-SQL_ARGS = [(_CYCLE,), ("msg", _RING), (_DEEP,), (), ("[40001] x",), ("40001",), ("x 40001 y",), (40001,), (None,), ("A" * 10000,),
+SQL_ARGS = [("could not serialize access due to concurrent update 40001",),
+            ("deadlock detected while locking tuple 40P01",), ("Login failed for user 'sa' 28000",),
+            ("lost connection to the server 08S01", "extra"), ("syntax error at or near from: 42000",),
+            (_CYCLE,), ("msg", _RING), (_DEEP,), (), ("[40001] x",), ("40001",), ("x 40001 y",), (40001,), (None,), ("A" * 10000,),
             ("[HYT00] [08S01]",), ("08S01", "[42000]"), ("no code",), ("[4000]",),
             ("ERROR 28000: denied",), (b"[28000] Connexion refus\xe9e",), (b"\xff\xfe",),
             (bytearray(b"[40001] x"),), (b"[40001] ok",), ("\ud800",)]
